@@ -28,6 +28,17 @@ float VH_MEMINIT(int_t n, int_t annz, superlumt_options_t *o, SuperMatrix *L, Su
     if (Glu->dynamic_snode_bound == YES) nzlumax = f6 < 0 ? -f6 * annz : f6;
     else nzlumax = Glu->nzlumax;
     if (!VH_EXPANDERS) VH_EXPANDERS = (ExpHeader *)malloc(4 * sizeof(ExpHeader)) /* NO_MEMTYPE */;
+    if (o->refact == YES) {
+        /* re-factorization: rebind exactly the arrays inside the caller's L and U, sizes as retained in Glu
+           (what the real routine does in its refact == YES branch) */
+        SCPformat *Ls = (SCPformat *)L->Store; NCPformat *Us = (NCPformat *)U->Store;
+        Glu->xsup = Ls->sup_to_colbeg; Glu->xsup_end = Ls->sup_to_colend; Glu->supno = Ls->col_to_sup;
+        Glu->xlsub = Ls->rowind_colbeg; Glu->xlsub_end = Ls->rowind_colend; Glu->xlusup = Ls->nzval_colbeg; Glu->xlusup_end = Ls->nzval_colend;
+        Glu->xusub = Us->colbeg; Glu->xusub_end = Us->colend;
+        Glu->lsub = Ls->rowind; Glu->lusup = Ls->nzval; Glu->usub = Us->rowind; Glu->ucol = Us->nzval;
+        { int_t j; vh_map_n = n; for (j = 0; j <= n && j < 64; ++j) vh_map0[j] = Glu->map_in_sup[j]; }
+        return 0;
+    }
     Glu->xsup = (int_t *)malloc((n + 1) * sizeof(int_t));
     Glu->xsup_end = (int_t *)malloc(n * sizeof(int_t));
     Glu->supno = (int_t *)malloc((n + 1) * sizeof(int_t));
